@@ -244,7 +244,7 @@ void target_run(void)
 	cfg_sig_churn = ch_n(3) == 0;
 	if (cfg_sig_churn) { if (nl < 2) nl = 2; vz_label(L_SIGNAL_INTEREST_CHURN); }
 	cfg_ino = vz_param_l("ino", -1) >= 0 ? (int)vz_param_l("ino", 0) : ch_n(4) == 0;
-	if (cfg_ino) { if (nl < 2) nl = 2; ino_base = vz_scratch_dir(); vz_label(L_INOTIFY_PER_LOOP); }
+	if (cfg_ino) { static char ino_dir[200]; if (nl < 2) nl = 2; snprintf(ino_dir, sizeof ino_dir, "%s", vz_scratch_dir()); ino_base = ino_dir; vz_label(L_INOTIFY_PER_LOOP); }     /* (a private copy: the driver clears its own when it gives a case up) */
 	if (!cfg_main_events) { np = 0; cfg_churn_ev = 0; have_pool = 0; nitems = 0; nwi = 0; if (nl < 2) nl = 2; }     /* variant: only the loop threads hold events, so the process-wide kick descriptor comes and goes */
 	atomic_store(&nposters, np); atomic_store(&nloops, nl);
 	vz_hash_u(method * 1000 + np * 100 + nl * 10 + have_pool); vz_hash_u(cfg_post_count * 16 + cfg_churn * 4 + nwi); vz_hash_u(nitems * 4 + cfg_raise * 2 + concurrent_first);
